@@ -463,6 +463,25 @@ static void op_alias(const Case& c, Outcome& o) {
   if (!a.same || a.size != a.want_size || a.align != a.want_align) { char m[160]; std::snprintf(m, sizeof m, "alias glm::%s is not the instantiation its name spells (sizeof %zu, expected %zu; alignof %zu, expected %zu)", a.name, a.size, a.want_size, a.align, a.want_align); o.bad(1, m); }
 }
 
+// qualifier conversion in place: vec<L,T,packed_highp>(vec<L,T,aligned_highp>) and the reverse, constructed by placement new inside a 0xA5-filled buffer. The object
+// must hold the source components and every byte of the buffer outside [object, object + sizeof) must be untouched (a packed object is exactly L components;
+// arrays and matrix columns of packed vectors are adjacent). Case word: L-1 + 4 * type index.
+#if C16_ALIGNED
+template <class DST, class SRC, int L> static int qconv_one(int off_dst) {
+  alignas(64) unsigned char buf[256]; std::memset(buf, 0xA5, sizeof buf);
+  SRC a; for (int k = 0; k < L; ++k) a[k] = (typename SRC::value_type)(k + 1);
+  DST* d = new (buf + off_dst) DST(a);
+  for (int k = 0; k < L; ++k) if (!((*d)[k] == (typename DST::value_type)(k + 1))) return 1;
+  for (size_t i = 0; i < sizeof buf; ++i) if ((i < (size_t)off_dst || i >= (size_t)off_dst + sizeof(DST)) && buf[i] != 0xA5) return 2 + (i >= (size_t)off_dst + sizeof(DST));
+  return 0; }
+template <typename T, int L> static int qconv_LT() { typedef glm::vec<L, T, glm::packed_highp> P; typedef glm::vec<L, T, glm::aligned_highp> A;
+  int r = qconv_one<P, A, L>(64 + (int)sizeof(T)); if (r) return r; r = qconv_one<A, P, L>(64); if (r) return 10 + r; r = qconv_one<P, P, L>(64 + (int)sizeof(T)); return r ? 20 + r : 0; }
+template <typename T> static int qconv_T(int L) { return L == 1 ? qconv_LT<T, 1>() : L == 2 ? qconv_LT<T, 2>() : L == 3 ? qconv_LT<T, 3>() : qconv_LT<T, 4>(); }
+static void op_qconv(const Case& c, Outcome& o) {
+  int L = (int)(c.w[0] & 3) + 1, t = (int)(c.w[0] >> 2); o.cls(t);
+  int r = t == 0 ? qconv_T<float>(L) : t == 1 ? qconv_T<double>(L) : t == 2 ? qconv_T<int>(L) : t == 3 ? qconv_T<glm::uint>(L) : t == 4 ? qconv_T<glm::int64>(L) : qconv_T<glm::uint8>(L);
+  o.res((uint64_t)r); o.exp(0); if (r) o.bad(1 + (r % 10 >= 2), (r % 10 >= 2) ? "qualifier-converting constructor wrote outside the destination object" : "qualifier-converting constructor does not carry the components over"); }
+#endif
 #define PART(k) (!defined(GLMX_PART) || GLMX_PART == k)
 #if defined(GLMX_PART)
 #  define C16_PARTDESC "element types of this part"
@@ -512,6 +531,9 @@ int main(int argc, char** argv) {
   CheckFn fns[NFACTS] = {op_fact<F_SIZEOF>, op_fact<F_ALIGNOF>, op_fact<F_ADDR>, op_fact<F_MEMBERS>, op_fact<F_VPTR>, op_fact<F_IMAGE>, op_fact<F_MAKE>, op_fact<F_LENGTH>, op_fact<F_COPY>};
   for (int f = 0; f < NFACTS; ++f) { Op& op = E.add(FACT_NAME[f], fns[f]); op.quick = {inst}; op.classes = classes;
     if (f == F_MAKE) { op.classes.clear(); op.note = "builders return defaultp: only instantiations of the alignment family of defaultp apply; vec1 has no pointer builder (counted trivial)"; } }
+#if PART(0) && C16_ALIGNED
+  { Op& op = E.add("packed<->aligned qualifier conversion constructed in place: components carried over, no byte outside the object written", op_qconv); op.quick = {range("L{1..4} x T{float,double,int,uint,i64,u8}", 0, 24, true)}; op.classes = {"float", "double", "int", "uint", "i64", "u8"}; }
+#endif
 #if PART(0)
   { Op& op = E.add("type aliases of fwd.hpp / gtc/type_aligned.hpp are the instantiations their names spell", op_alias); op.quick = {range("ALIASES", 0, NALIASES, true)}; op.classes = {"core"}; if (C16_ALIGNED) { op.classes.push_back("aligned_*"); op.classes.push_back("packed_*"); } }
 #endif
